@@ -81,6 +81,9 @@ def run_unit(args):
             res["bounded"] = u.bounded
         proxies.set_cx(c)
         old_budget = (core.Z3_TIMEOUT_MS, core.CVC5_TIMEOUT_MS)
+        old_feas = core.FEAS_TIMEOUT_MS
+        if u.feas_ms:
+            core.FEAS_TIMEOUT_MS = u.feas_ms
         if u.z3_ms:
             core.Z3_TIMEOUT_MS = u.z3_ms
         if u.cvc5_ms is not None:
@@ -90,6 +93,7 @@ def run_unit(args):
         finally:
             c.unroute()
             core.Z3_TIMEOUT_MS, core.CVC5_TIMEOUT_MS = old_budget
+            core.FEAS_TIMEOUT_MS = old_feas
         res["paths"] = c.paths_run
         res["exhausted"] = c.exhausted
         res["rewrite"] = getattr(c, "rewrite_log", [])
@@ -226,6 +230,7 @@ def complete_by_unrolling(u, prop, o, known_ids, seed):
     c = U.SymUnitCtx(u.name, prop, seed)
     c.known_ids = known_ids
     c.unroll = True
+    c.bfs = True
     loopk = o.kind in ("loop-preserve", "loop-entry")
     c.only_obligation = None if loopk else o.name
     c.deadline = time.time() + 20
@@ -498,6 +503,10 @@ def check_property(prop, tier, seed, jobs=None):
     for r in results:
         for f in r["cross"]["failed"][:2]:
             print("  cross-check contract failure in %s: %s values=%s" % (r["unit"], f["clauses"], str(f["values"])[:300]))
+    for r in results:
+        errs = r["cross"].get("errors") or []
+        if errs:
+            print("  cross-check harness errors in %s (%d): %s" % (r["unit"], len(errs), errs[0][:200]))
     for l in known_lines:
         print(l)
     for name, path, confirmed in violations:
